@@ -12,4 +12,13 @@ META = {
     note='Linearizability of recorded histories is decided exactly by TLC; which concurrent histories occur depends on the Go scheduler except for the '
          'forced overlaps (gate inside the critical section). Bounded: sequences of length 5 (quick) / 8 (thorough).',
     technique='TLA+ refinement check (TLC) + trace validation of recorded histories against the abstract spec (linearization search by TLC)'),
+ 'C02': dict(
+    text='RouterHandler.tla states the per-message protocol (invoke chain once, publish exactly the outputs of a successful chain, settle once: Ack iff '
+         'no error and outputs accepted, never before Publish returned, never overriding the handler) and TLC checks its invariants/action properties '
+         'for 2 concurrent messages and rejects three protocol mutants. A real Router with scripted subscriber, handler chain and publisher is run on '
+         'the exhaustive behaviour matrix and on concurrent triples with forced schedules; the observable trace (chain entry/exit, Publish arguments, '
+         'settlement sampled inside Publish, final settlement) is validated by TLC against the same spec',
+    design_ref='DESIGN.md 6/C02',
+    note='Bounded: <=2 outputs, <=3 messages in flight. The router-internal settlement step is unlogged (silent step of the trace spec).',
+    technique='TLA+ protocol spec checked by TLC + trace validation of real Router runs over an exhaustive behaviour matrix'),
 }
